@@ -16,6 +16,10 @@ def build_obs(tier, tables):
     obs += parse_step_obs(["CHK_C02"], "c02par", states=[0], callbacks=True, checks="std", tier=tier)
     # stack: is the recursion into a nested (declared or skipped) section still taken at depth 10^5?
     from props.parsecommon import _ob, F
+    from runner import Ob
+    # the REAL flex refill function with an unreadable source (directory / special file): can the process exit?
+    obs.append(Ob("c02-flex-unreadable-input", "flex_input.c", [], unwind=6, checks="none", must_reach=("end of harness",),
+                  params={"what": "real yy_get_next_buffer() of the flex output with fread() == 0 and ferror() set"}))
     obs.append(_ob("c02depth", ["CHK_C02"], 5, "SECM", 0, 0, 100000, checks="none"))
     obs.append(_ob("c02depth", ["CHK_C02", "CHK_C12"], 12, "INT", 1, F["IGNORE"], 100000, checks="none"))
     return obs
